@@ -37,6 +37,13 @@ def run(check: Check, repo: Repo, tier: str) -> None:
     K.field_requiredness(check, repo)
     K.variable_arm(check, repo)
     V.operation_scoped(check, repo, mods)
+    V.leafs_partition(check, repo)
+    from rules import identity
+    identity.check_id_pin(check, repo, [repo.mod("execution.executor"), repo.mod("pyutils.ref_map"), repo.mod("execution.collect_fields"),
+                                        repo.mod("execution.values")])
+    check.floor("ID-PIN", 5, "id() sites")
+    K0 = __import__("rules.coercion_rules", fromlist=["x"])
+    K0.domain_guards(check, repo, ("coerce_output_value", "coerce_input_value", "coerce_input_literal"))
     check.floor("OPERATION-SCOPED", 2, "per-operation containers of validation rules")
     from rules import merge_rules as M
     M.subsumption(check, repo)
